@@ -457,6 +457,8 @@ package factstore
 //@   loop 2 invariant 0 <= j && j <= p.Arity && len(args) == numFacts && len(skip) == numFacts && (forall k int :: 0 <= k && k < numFacts ==> len(args[k]) == p.Arity)
 //@   loop 3 invariant 0 <= j && j < p.Arity && 0 <= i#2 && i#2 <= numFacts && len(args) == numFacts && len(skip) == numFacts && (forall k int :: 0 <= k && k < numFacts ==> len(args[k]) == p.Arity)
 //@   loop 4 invariant 0 <= i#3 && i#3 <= numFacts && len(args) == numFacts && len(skip) == numFacts
+// C19: a row that failed the filter on one column stays excluded whatever later columns say.
+//@   loop 3 atback forall k int :: 0 <= k && k < numFacts && prev(skip)[k] ==> skip[k]
 
 // Reading a file into a store adds exactly what the lazy view would answer: a zero-arity predicate is a fact
 // only if its recorded count is positive.
